@@ -546,6 +546,22 @@ class Values(Term):
         super().__init__(None)
         self.field = Field(field) if not isinstance(field, Field) else field
 
+    @builder
+    def replace_table(  # type:ignore[return]
+        self, current_table: "Table" | None, new_table: "Table" | None
+    ) -> "Self":
+        """
+        Replaces all occurrences of the specified table with the new table. Useful when reusing fields across queries.
+
+        :param current_table:
+            The table to be replaced.
+        :param new_table:
+            The table to replace with.
+        :return:
+            A copy of the term with the tables replaced.
+        """
+        self.field = self.field.replace_table(current_table, new_table)
+
     def get_sql(self, ctx: SqlContext) -> str:
         return "VALUES({value})".format(value=self.field.get_sql(ctx))
 
@@ -963,8 +979,6 @@ class RangeCriterion(Criterion):
     def is_aggregate(self) -> bool | None:  # type:ignore[override]
         return self.term.is_aggregate
 
-
-class BetweenCriterion(RangeCriterion):
     @builder
     def replace_table(  # type:ignore[return]
         self, current_table: "Table" | None, new_table: "Table" | None
@@ -983,6 +997,8 @@ class BetweenCriterion(RangeCriterion):
         self.start = self.start.replace_table(current_table, new_table)
         self.end = self.end.replace_table(current_table, new_table)
 
+
+class BetweenCriterion(RangeCriterion):
     def get_sql(self, ctx: SqlContext) -> str:
         # FIXME escape
         sql = "{term} BETWEEN {start} AND {end}".format(
@@ -1349,6 +1365,22 @@ class All(Criterion):
         yield self  # type:ignore[misc]
         yield from self.term.nodes_()
 
+    @builder
+    def replace_table(  # type:ignore[return]
+        self, current_table: "Table" | None, new_table: "Table" | None
+    ) -> "Self":
+        """
+        Replaces all occurrences of the specified table with the new table. Useful when reusing fields across queries.
+
+        :param current_table:
+            The table to be replaced.
+        :param new_table:
+            The table to replace with.
+        :return:
+            A copy of the term with the tables replaced.
+        """
+        self.term = self.term.replace_table(current_table, new_table)
+
     def get_sql(self, ctx: SqlContext) -> str:
         sql = "{term} ALL".format(term=self.term.get_sql(ctx))
         return format_alias_sql(sql, self.alias, ctx)
@@ -1474,6 +1506,18 @@ class AggregateFunction(Function):
             if isinstance(criterion, Node):
                 yield from criterion.nodes_()
 
+    @builder
+    def replace_table(  # type:ignore[return]
+        self, current_table: "Table" | None, new_table: "Table" | None
+    ) -> "Self":
+        self.args = [param.replace_table(current_table, new_table) for param in self.args]
+        self._filters = [
+            criterion.replace_table(current_table, new_table)
+            if isinstance(criterion, Term)
+            else criterion
+            for criterion in self._filters
+        ]
+
     def get_filter_sql(self, ctx: SqlContext) -> str:  # type:ignore[return]
         if self._include_filter:
             criterions = Criterion.all(self._filters).get_sql(ctx)  # type:ignore[attr-defined]
@@ -1518,6 +1562,18 @@ class AnalyticFunction(AggregateFunction):
         for term in [*self._partition, *(field for field, _ in self._orderbys)]:
             if isinstance(term, Node):
                 yield from term.nodes_()
+
+    @builder
+    def replace_table(  # type:ignore[return]
+        self, current_table: "Table" | None, new_table: "Table" | None
+    ) -> "Self":
+        def replaced(term: Any) -> Any:
+            return term.replace_table(current_table, new_table) if isinstance(term, Term) else term
+
+        self.args = [param.replace_table(current_table, new_table) for param in self.args]
+        self._filters = [replaced(criterion) for criterion in self._filters]
+        self._partition = [replaced(term) for term in self._partition]
+        self._orderbys = [(replaced(term), orient) for term, orient in self._orderbys]
 
     def _orderby_field(self, field: Field, orient: Order | None, ctx: SqlContext) -> str:
         if orient is None:
@@ -1788,6 +1844,22 @@ class AtTimezone(Term):
     def nodes_(self) -> Iterator[NodeT]:
         yield self  # type:ignore[misc]
         yield from self.field.nodes_()
+
+    @builder
+    def replace_table(  # type:ignore[return]
+        self, current_table: "Table" | None, new_table: "Table" | None
+    ) -> "Self":
+        """
+        Replaces all occurrences of the specified table with the new table. Useful when reusing fields across queries.
+
+        :param current_table:
+            The table to be replaced.
+        :param new_table:
+            The table to replace with.
+        :return:
+            A copy of the term with the tables replaced.
+        """
+        self.field = self.field.replace_table(current_table, new_table)
 
     def get_sql(self, ctx: SqlContext) -> str:
         sql = "{name} AT TIME ZONE {interval}{zone}".format(
